@@ -86,6 +86,45 @@ theorem psession_in_order (g : Int) (ops : List Op) (h : InOrder ops) (k : Strin
   rw [(psession_key g ops k).1, (psession_key g ops k).2]
   exact session_in_order g _ (inOrder_proj k h)
 
+/-- what the judge checks after every call: at any moment the events handed out so far are a prefix of the
+arrivals (in order, nothing twice, nothing skipped) — immediate from `*_exactly_once` -/
+theorem emitted_prefix_of_arrivals (ops : List Op) :
+    (∀ d, ((tumbling d).emits (tumbling d).init ops).flatten <+: adds ops) ∧
+    (∀ n, ((count n).emits (count n).init ops).flatten <+: adds ops) ∧
+    (∀ g, ((session g).emits (session g).init ops).flatten <+: adds ops) :=
+  ⟨fun d => ⟨_, tumbling_exactly_once d ops⟩, fun n => ⟨_, count_exactly_once n ops⟩, fun g => ⟨_, session_exactly_once g ops⟩⟩
+
+/-- and right after a `flush` everything that arrived has been handed out -/
+theorem flushed_all (ops : List Op) :
+    (∀ d, ((tumbling d).emits (tumbling d).init (ops ++ [.flush])).flatten = adds ops) ∧
+    (∀ n, ((count n).emits (count n).init (ops ++ [.flush])).flatten = adds ops) ∧
+    (∀ g, ((session g).emits (session g).init (ops ++ [.flush])).flatten = adds ops) := by
+  have hadds : adds (ops ++ [.flush]) = adds ops := by
+    induction ops with
+    | nil => simp [adds]
+    | cons o os ih => rw [List.cons_append, adds_cons, adds_cons o os, ih]
+  have hfin : ∀ {σ : Type} (m : Machine σ Op (List Ev)) (s : σ) (l : List Op) (o : Op),
+      m.final s (l ++ [o]) = (m.step (m.final s l) o).1 := by
+    intro σ m s l o
+    induction l generalizing s with
+    | nil => simp [Machine.final]
+    | cons a l ih => simp [Machine.final, ih]
+  refine ⟨fun d => ?_, fun n => ?_, fun g => ?_⟩
+  · have h := tumbling_exactly_once d (ops ++ [.flush])
+    rw [hfin] at h
+    simpa [tumbling, Tumbling.step, hadds] using h
+  · have h := count_exactly_once n (ops ++ [.flush])
+    rw [hfin] at h
+    simpa [count, Count.step, hadds] using h
+  · have h := session_exactly_once g (ops ++ [.flush])
+    rw [hfin] at h
+    simpa [session, Session.step, hadds] using h
+
+/-- the Boolean judges run on the implementation's own windows decide exactly the property predicates -/
+theorem judges_decide_the_property (d g : Int) (w : List Ev) :
+    (tumblingOkB d w = true ↔ TumblingOk d w) ∧ (sessionOkB g w = true ↔ SessionOk g w) :=
+  ⟨tumblingOkB_iff d w, sessionOkB_iff g w⟩
+
 /-- recorded behaviour (allowed by the statement): after a watermark close, a later event beyond the next
 boundary makes `add_shared` hand back an empty window `Some([])` -/
 theorem tumbling_empty_window_witness :
